@@ -316,7 +316,7 @@ def semi_singleton_metaclass(hashfunc: Callable | None = None) -> type:
     # by default, use a hash function to serialize all arguments
     if hashfunc is None:
 
-        def hashfunc(args: tuple, kwargs: dict) -> int:
+        def hashfunc(args: tuple, kwargs: dict) -> Hashable:
             """
             Default argument hash function for semi-singleton objects.  Causes
             semi-singletons to return new objects if any argument (positional
@@ -329,7 +329,10 @@ def semi_singleton_metaclass(hashfunc: Callable | None = None) -> type:
             :return: A hash of the arguments.
             """
             jwargs = json.dumps(kwargs, sort_keys=True)
-            return hash((args, jwargs))
+            # return the arguments themselves rather than their hash: distinct
+            # arguments can share a hash value (-1 and -2, for example), but
+            # must not share an instance
+            return (args, jwargs)
 
     class _SemiSingleton(type):
         """
